@@ -553,6 +553,50 @@ Proof.
   destruct rk; [split; [left; reflexivity|split; [reflexivity|exact H]]|split; [right; reflexivity|split; [reflexivity|exact H]]|discriminate].
 Qed.
 
+(** splice whose [j]-th replacement value (of [n], honestly announced) has ANOTHER runtime type: the type check
+    of the fill loop refuses it.  The items in front of it are already in the storage but the length was never
+    raised: they are leaked, like the tail behind the range; the refused value and the ones behind it are destroyed,
+    once each; the vector keeps the elements in front of the range - shorter, but valid. *)
+Definition sp_splice_wrong (c : cfg) (st : astate) (nx : N) (v : nat) (sb eb : bound) (pat : list (bool * sink)) (f : fin)
+           (rk : rkind) (n : N) (j : N) (claimed : N) : option sres :=
+  match rk with
+  | RLazy _ => None
+  | _ =>
+    if negb (j <? n) || negb (claimed =? n) then None else
+    match get_a v st with
+    | None => None
+    | Some a =>
+      let xs := a_xs a in
+      let ts := next_ids c nx (N.to_nat n) in
+      let nx' := nx + n in
+      let item_drops := if c_dg c then map EDrop ts else [] in
+      match range_of_bounds usize_max (N.of_nat (length xs)) (to_sb sb) (to_sb eb) with
+      | None => Some (panic_res (range_panic sb eb) item_drops st nx')
+      | Some (s, e) =>
+          let s := N.to_nat s in let e := N.to_nat e in
+          match sp_walk xs pat s e with
+          | None => None
+          | Some (rets, ds, i, j2) =>
+              let yielded := flat_map (drop_ev c) ds in
+              let kept := set_a v (Some (with_xs a (firstn s xs))) st in
+              match f with
+              | FinForget => Some (ok_res (N.of_nat (e - s) :: rets) yielded kept nx')
+              | FinDrop =>
+                  let new_len := N.of_nat s + n + N.of_nat (length xs - e) in
+                  if usize_max <? new_len then Some (panic_res POverflow (yielded ++ item_drops) kept nx')
+                  else if (match acap c (a_bk a) with Some cap => cap <? new_len | None => false end)
+                  then Some (panic_res PCapacity (yielded ++ item_drops) kept nx')
+                  else Some (panic_res PType
+                                       (yielded ++ (if c_dg c then map EDrop (firstn (j2 - i) (skipn i xs)) else [])
+                                                ++ repeat ENext (S (N.to_nat j))
+                                                ++ (if c_dg c then map EDrop (skipn (N.to_nat j) ts) else []))
+                                       kept nx')
+              end
+          end
+      end
+    end
+  end.
+
 (** the values a lazily cloning replacement iterator draws on: element [k mod len] of the source vector for the
     k-th item (the harness cycles through the source) *)
 Definition lazy_srcs (ys : list N) (n : nat) : list N := map (fun k => nth (k mod length ys) ys 0) (seq 0 n).
@@ -922,6 +966,7 @@ Definition spec_step (c : cfg) (st : astate) (nx : N) (o : op) : option sres :=
       | Some r => Some r
       | None => sp_drain_mv c st nx v sb eb pat f
       end
+  | OSplice _ v sb eb pat f rk n (Some j) claimed => sp_splice_wrong c st nx v sb eb pat f rk n j claimed
   | OSplice _ v sb eb pat f (RLazy src) n None claimed => sp_splice_lazy c st nx v sb eb pat f src n claimed
   | OSplice _ v sb eb pat f rk n wrong_at claimed =>
       match sp_splice c st nx v sb eb pat f rk n wrong_at claimed with
